@@ -38,7 +38,7 @@ pub const SPEC: PropSpec = PropSpec {
         ("sim.short_send_sessions", 8, 250),
         ("c01.short_send.flushes_over_4_datagrams", 200, 6_000),
         ("live.sessions.timing_reliable", 6, 48),
-        ("live.C01.completeness_checked", 6, 48),
+        ("live.C01.completeness_checked", 4, 40),
         ("live.client.datagrams_delivered", 20000, 200000),
     ],
 };
